@@ -20,13 +20,16 @@ import time
 ROOT = os.path.dirname(os.path.dirname(os.path.abspath(__file__)))
 VENV_PY = os.path.join(ROOT, '.venv', 'bin', 'python')
 PLAIN_PY = '/venv/bin/python'
-EVID = os.path.join(ROOT, 'evidence')
+# development aids (never set by the registered commands): VERIF_REPO points the check at a scratch
+# copy of google/gin-config instead of /repo, VERIF_EVID keeps its evidence out of /verif/evidence
+REPO = os.environ.get('VERIF_REPO', '/repo')
+EVID = os.environ.get('VERIF_EVID', os.path.join(ROOT, 'evidence'))
 NPROC = int(os.environ.get('VERIF_JOBS', '16'))
 
 
 def env_for(plain):
   e = dict(os.environ)
-  e['PYTHONPATH'] = ROOT + ':/repo'
+  e['PYTHONPATH'] = ROOT + ':' + REPO
   e['PYTHONDONTWRITEBYTECODE'] = '1'
   e['PYTHONHASHSEED'] = '0'
   if plain:
@@ -191,7 +194,7 @@ def main(argv):
   def handle_cex(hname, fn, kwargs, origin):
     blob = json.dumps(kwargs, sort_keys=True, default=repr)
     hsh = hashlib.sha1((hname + blob).encode()).hexdigest()[:12]
-    rel = 'evidence/replays/%s-%s.json' % (pid, hsh)
+    rel = os.path.relpath(os.path.join(EVID, 'replays', '%s-%s.json' % (pid, hsh)), ROOT)
     r = run_replay(modname, fn, kwargs)
     if r['ok'] is False:
       with open(os.path.join(ROOT, rel), 'w') as f:
